@@ -214,6 +214,22 @@ def cleanServers (retention : Int) : Prog (Nat × Nat) :=
   | .error _ => pure (0, 0)
   | .ok svrs => removeAll (now - retention) svrs 0 0
 
+/-- `ServerCleaner.Clean` at storage-command granularity of its `Filter` (index scan, then record fetch), after
+the repair: a fetched record that was refreshed after the cutoff is skipped -/
+def cleanServers2 (retention : Int) : Prog (Nat × Nat) :=
+  .call .now fun now =>
+  .call (.scanServers { updatedBefore := some (now - retention) }) fun r =>
+  match r with
+  | .error _ => pure (0, 0)
+  | .ok scanned =>
+    if scanned.isEmpty then pure (0, 0)       -- `Filter` returns before the `HMGET` when no key was selected
+    else
+      .call (.fetchServers (scanned.map (·.addr))) fun r =>
+      match r with
+      | .error _ => pure (0, 0)
+      | .ok svrs =>
+        removeAll (now - retention) (svrs.filter fun s => match s.refreshedAt with | some t => !decide (t > now - retention) | none => true) 0 0
+
 /-- `InstanceCleaner.Clean` -/
 def cleanInstances (retention : Int) : Prog (Except UErr Nat) :=
   .call .now fun now =>
